@@ -76,16 +76,20 @@ def _check_main(ctx, res) -> None:
                 f"encoder chooses the encoding with {sorted({q for q, _, _ in ce})}, decoder with {sorted({q for q, _, _ in cd})} "
                 "(or not from its own input): a file may be written in another encoding than it was read with")
     # default codec
-    dec_defaults = [const_str(n.value) for n in walk_local(dec.node)
+    def lit(e):
+        c = idx.const_node(mod, e)
+        return c.value if c is not None and isinstance(c.value, str) else None
+
+    dec_defaults = [lit(n.value) for n in walk_local(dec.node)
                     if isinstance(n, ast.Assign) and isinstance(n.targets[0], ast.Name) and n.targets[0].id == "encoding"
-                    and const_str(n.value) is not None]
+                    and lit(n.value) is not None]
     enc_literals = []
     for c in calls_in(enc.node):
         if call_name(c) == "encode" and isinstance(c.func, ast.Attribute):
             if not c.args:
                 enc_literals.append(None)
-            elif const_str(c.args[0]) is not None:
-                enc_literals.append(const_str(c.args[0]))
+            elif lit(c.args[0]) is not None:
+                enc_literals.append(lit(c.args[0]))
     if not dec_defaults or not enc_literals:
         res.undecided("R16.1", "default", enc.where, "default codec literal not found on one side")
     else:
@@ -401,8 +405,13 @@ def coding_name_alphabet_rule(ctx, res, rule: str) -> None:
                 "both PEP 263 delimiters ('=' and ':') are accepted after `coding`" if ok else
                 f"only {sorted(v)} is accepted after `coding`: a declaration written with {sorted({'=', ':'} - v)} (PEP 263 allows both) is not seen and the file "
                 "is decoded as UTF-8 / latin-1 instead of its declared encoding", function=f.qualname)
+    cfg = CFG(f.node)
+    breaks = [nd for nd in cfg.nodes if nd.kind == "stmt" and isinstance(nd.ast, (ast.Break, ast.Return))]
     for k, (x, v) in enumerate(alpha, 1):
-        has_alnum = any(isinstance(c, ast.Call) and call_name(c) == "isalnum" for c in ast.walk(_enclosing_test(f.node, x)))
+        # the scan stops (break) only for characters that are neither alphanumeric nor in the punctuation set: read
+        # off the guards of the stop, however the test is written (one condition, nested ifs, a named boolean)
+        stops = [nd for nd in breaks if any(t is x or any(y is x for y in ast.walk(t)) for t, _ in cfg.guards(nd.id))]
+        has_alnum = bool(stops) and all(any(not pol and isinstance(t, ast.Call) and call_name(t) == "isalnum" for t, pol in cfg.guards(nd.id)) for nd in stops)
         missing = sorted(punct - v)
         ok = has_alnum and not missing
         res.add(rule, f"_find_coding|name-alphabet#{k}", ok, f"{f.unit.rel}:{x.lineno}",
